@@ -193,6 +193,11 @@ class Table:
             if i is None or i is Ellipsis or isinstance(i, slice) or (isinstance(i, int) and not isinstance(i, bool)):
                 out.append(i)
                 continue
+            if isinstance(i, bool):
+                # a 0-d boolean mask (the mask of a single object): numpy's own semantics - a new axis of length 1 or 0
+                advanced = True
+                out.append(np_.bool_(i))
+                continue
             arr = _int_array(i)
             if arr is None:
                 raise Unknown("index kind")
@@ -415,7 +420,10 @@ class LineObj(SymObject):
 
             def c(i, j):
                 return a.data[(i,)] * b.data[(j,)] - a.data[(j,)] * b.data[(i,)]
-            return PointObj(Table((3,), {(0,): c(1, 2), (1,): c(2, 0), (2,): c(0, 1)}), normalised=False)
+            out = Table((3,), {(0,): c(1, 2), (1,): c(2, 0), (2,): c(0, 1)})
+            if all(v.is_zero() for v in out.data.values()):
+                raise RaisedIn("LinearDependenceError")  # meet of a line with itself (that the library raises here is C02's E19.join)
+            return PointObj(out, normalised=False)
         raise Unknown("meet of these objects")
 
 
@@ -615,6 +623,14 @@ class Interp:
         if isinstance(e, ast.UnaryOp) and isinstance(e.op, ast.Not):
             v = self.ev(e.operand, env)
             return (not v) if isinstance(v, bool) else Opaque("not of a value that is not a truth value")
+        if isinstance(e, ast.UnaryOp) and isinstance(e.op, ast.Invert):
+            v = self.ev(e.operand, env)
+            return (not v) if isinstance(v, bool) else Opaque("~ of a value that is not a truth value")  # numpy's ~ on a boolean mask
+        if isinstance(e, ast.BinOp) and isinstance(e.op, (ast.BitAnd, ast.BitOr)):
+            l, r = self.ev(e.left, env), self.ev(e.right, env)
+            if isinstance(l, bool) and isinstance(r, bool):
+                return (l and r) if isinstance(e.op, ast.BitAnd) else (l or r)
+            return Opaque("& / | of values that are not truth values")
         if isinstance(e, ast.UnaryOp) and isinstance(e.op, ast.USub):
             v = self.ev(e.operand, env)
             if isinstance(v, SymObject) and hasattr(v, "neg"):
@@ -720,6 +736,12 @@ class Interp:
                 return Opaque(f"attribute {e.attr} of the object")
             if isinstance(base, SymObject) and hasattr(base, e.attr):
                 return getattr(base, e.attr)
+            if isinstance(base, SymObject) and not isinstance(base, TensorSym) and self.generic and self.depth < 5 and getattr(base, "kinds", None):
+                # a property of the library class the object stands for (LineTensor.direction ...), most derived class first: interpreted
+                owners = [c for c in self.prog.classes.values() if c.name in base.kinds and e.attr in c.methods and c.methods[e.attr].is_property]
+                if owners:
+                    own = max(owners, key=lambda c: len(self.prog.mro(c)))
+                    return self.run_method(own.methods[e.attr], base, [], {})
             if isinstance(base, TensorSym) and self.depth < 5:
                 # a property the library defines in exactly one class (covariant_tensor / contravariant_tensor of LineTensor ...): interpreted
                 owners = [c for c in self.prog.classes.values() if e.attr in c.methods and c.methods[e.attr].is_property]
@@ -734,6 +756,8 @@ class Interp:
                     return (base.dim + 1,)
                 if e.attr == "dim":
                     return base.dim
+                if e.attr == "free_indices":
+                    return 0  # a single point
             if isinstance(base, QuadricSym) and e.attr == "array":
                 return base.matrix
             if isinstance(base, Table):
@@ -993,8 +1017,19 @@ class Interp:
             if name in ("zeros", "ones") and e.args:
                 shp = self.ev(e.args[0], env)
                 shp = (shp,) if isinstance(shp, int) else tuple(shp) if isinstance(shp, (list, tuple)) else None
+                if shp == ():
+                    return LP.const(1 if name == "ones" else 0)  # a 0-d array
                 if shp and all(isinstance(x, int) for x in shp):
                     return Table.full(shp, lambda idx: LP.const(1 if name == "ones" else 0))
+            if name in ("zeros_like", "ones_like") and len(e.args) == 1:
+                v = self.ev(e.args[0], env)
+                if isinstance(v, Table):
+                    return Table.full(v.shape, lambda idx: LP.const(1 if name == "ones_like" else 0))
+            if name == "isclose" and self.generic and len(e.args) == 2:
+                # coordinates in general position: a polynomial is 'close to' another exactly when the two are the same polynomial
+                l_, r_ = self.ev(e.args[0], env), self.ev(e.args[1], env)
+                if isinstance(l_, (LP, int)) and isinstance(r_, (LP, int)) and not isinstance(l_, bool) and not isinstance(r_, bool):
+                    return (self.lp(l_) - self.lp(r_)).rewrite(self.rules).is_zero()
             if name in ("array", "asarray") and e.args:
                 v = self.ev(e.args[0], env)
                 if isinstance(v, Table):
@@ -1491,8 +1526,8 @@ class Interp:
                 l_, r_ = self.ev(t.left, env), self.ev(t.comparators[0], env)
             except (Unknown, NotPolynomial):
                 l_ = r_ = None
-            if isinstance(l_, (SymObject, PointSym)) and isinstance(r_, (SymObject, PointSym)) and l_ is not r_:
-                return isinstance(t.ops[0], ast.NotEq)
+            if isinstance(l_, (SymObject, PointSym)) and isinstance(r_, (SymObject, PointSym)):
+                return (l_ is r_) != isinstance(t.ops[0], ast.NotEq)  # ... and an object is equal to itself
         is_isinf = isinstance(t, ast.Call) and (t.func.attr if isinstance(t.func, ast.Attribute) else getattr(t.func, "id", "")) == "isinf"
         if isinstance(t, (ast.Name, ast.Attribute, ast.Compare)) or (isinstance(t, ast.Call) and not is_isinf):
             try:
@@ -1539,7 +1574,9 @@ class Interp:
                 # a call for its effect (a helper that fills the buffer in place): interpreted; what is not read invalidates the tables it was handed
                 try:
                     self.ev(c, env)
-                except (Unknown, NotPolynomial):
+                except (Unknown, NotPolynomial) as ex_:
+                    if isinstance(ex_, RaisedIn):
+                        raise
                     pass
             return
         if isinstance(st, (ast.Import, ast.ImportFrom, ast.Pass)):
@@ -1556,6 +1593,8 @@ class Interp:
             try:
                 v = self.ev(st.value, env) if st.value is not None else Opaque("returns None")
             except (Unknown, NotPolynomial) as ex:
+                if isinstance(ex, RaisedIn):
+                    raise  # a definite raise of interpreted library code is the raise of this statement
                 v = Opaque(str(ex))
             raise _Done(v.matrix if isinstance(v, QuadricSym) else v)
         if isinstance(st, ast.If):
@@ -1566,12 +1605,16 @@ class Interp:
                     try:
                         if self.test(st.test, env) is True:
                             self.block(st.body, env)
-                    except (Unknown, NotPolynomial):
+                    except (Unknown, NotPolynomial) as ex_:
+                        if isinstance(ex_, RaisedIn):
+                            raise
                         pass
                 return
             try:
                 t = self.test(st.test, env)
-            except Unknown:
+            except Unknown as ex_t:
+                if isinstance(ex_t, RaisedIn):
+                    raise
                 # both arms: whatever either may write is no longer known
                 self.forget_written(st, env, "written under an undecided test")
                 if any(isinstance(x, (ast.Return, ast.Raise)) for x in ast.walk(st)):
@@ -1584,6 +1627,8 @@ class Interp:
             try:
                 v = self.ev(st.value, env)
             except (Unknown, NotPolynomial) as ex:
+                if isinstance(ex, RaisedIn):
+                    raise  # a definite raise of interpreted library code is the raise of this statement
                 v = Opaque(str(ex))
             for t in st.targets:
                 self.assign(t, v, env)
@@ -1593,6 +1638,8 @@ class Interp:
                 try:
                     v = self.ev(st.value, env)
                 except (Unknown, NotPolynomial) as ex:
+                    if isinstance(ex, RaisedIn):
+                        raise  # a definite raise of interpreted library code is the raise of this statement
                     v = Opaque(str(ex))
                 self.assign(st.target, v, env)
             return  # a bare annotation binds nothing
@@ -1622,6 +1669,8 @@ class Interp:
                 else:
                     self.forget_written(st, env, "augmented assignment through a target that is not read")
             except (Unknown, NotPolynomial) as ex:
+                if isinstance(ex, RaisedIn):
+                    raise  # a definite raise of interpreted library code is the raise of this statement
                 name = st.target.id if isinstance(st.target, ast.Name) else st.target.value.id if isinstance(st.target, ast.Subscript) and isinstance(st.target.value, ast.Name) else None
                 if name:
                     env[name] = Opaque(str(ex))
@@ -1630,7 +1679,9 @@ class Interp:
             # a loop over a sequence that is known: unrolled
             try:
                 seq = self.ev(st.iter, env)
-            except (Unknown, NotPolynomial):
+            except (Unknown, NotPolynomial) as ex_:
+                if isinstance(ex_, RaisedIn):
+                    raise
                 seq = None
             if isinstance(seq, Table) and len(seq.shape) >= 1:
                 seq = [seq.get(i) for i in range(seq.shape[0])]
@@ -2097,6 +2148,47 @@ def rule_degenerate(run: Run, prog: Program) -> int:
 
 
 # ---------------------------------------------------------------------------------------------- cross ratio (C11)
+def _cr_repeated(run: Run, prog: Program, fn, label: str, env: dict, params: list) -> int:
+    """crossratio(a, a, c, d) = 1 (the value given by the parameters for x1 = x2): the same object passed as the first two arguments"""
+    env[params[1]] = env[params[0]]
+    label = label + ", the first two arguments the same object"
+    it = Interp(prog, None, {})
+    it.ratio_mode = True
+    it.generic = True
+    it.hooks = {"matvec": lambda a_, k_: _dot(a_[0], a_[1]) if len(a_) == 2 and isinstance(a_[0], Table) and isinstance(a_[1], Table) else Opaque("matvec"),
+                "is_collinear": lambda a_, k_: True, "is_concurrent": lambda a_, k_: True,
+                "from_array": lambda a_, k_: LineObj(a_[-1]) if a_ and isinstance(a_[-1], Table) and a_[-1].shape == (3,) else Opaque("from_array")}
+    it.assume = {"distinct": True}
+    try:
+        got = None
+        try:
+            it.block(fn.node.body, env)
+        except _Done as d:
+            got = d.matrix
+        except _Raise as r:
+            run.add("E19.cr", fn.short, label, VIOLATION, f"raises {r.name}: the cross ratio for x1 = x2 is 1", fn.loc)
+            return 1
+        one = None
+        if isinstance(got, LP):
+            one = (got - LP.const(1)).is_zero()
+        elif isinstance(got, Table):
+            one = all((v - LP.const(1)).is_zero() for v in got.data.values())
+        elif isinstance(got, Ratio) and not got.den.is_zero():
+            one = (got.num - got.den).is_zero()
+        elif isinstance(got, Ratio):
+            run.add("E19.cr", fn.short, label, VIOLATION, "the returned quotient is 0/0 (nan): the cross ratio for x1 = x2 is 1", fn.loc)
+            return 1
+        if one is None:
+            run.add("E19.cr", fn.short, label, UNDECIDED, f"the returned value is not read: {getattr(got, 'why', type(got).__name__)[:90]}", fn.loc)
+        else:
+            run.add("E19.cr", fn.short, label, PROVEN if one else VIOLATION, "the returned value is 1" if one else "the returned value is not 1", fn.loc)
+    except RaisedIn as r:
+        run.add("E19.cr", fn.short, label, VIOLATION, f"raises {r.name}: the cross ratio for x1 = x2 is 1", fn.loc)
+    except (Unknown, NotPolynomial, RecursionError) as ex:
+        run.add("E19.cr", fn.short, label, UNDECIDED, f"not read: {str(ex)[:100]}", fn.loc)
+    return 1
+
+
 def rule_crossratio(run: Run, prog: Program) -> int:
     run.rule("E19.cr", "crossratio(a, b, c, d) of four points P + x_i Q of one line - in the plane, in the plane seen from a fifth point, and in 3-space - is "
                        "(x1 - x3)(x2 - x4) / ((x1 - x4)(x2 - x3)): the returned quotient of determinants, read as polynomials in P, Q and the parameters, "
@@ -2115,7 +2207,8 @@ def rule_crossratio(run: Run, prog: Program) -> int:
     want_den = (xs[0] - xs[3]) * (xs[1] - xs[2])
     n = 0
     for label, dim, with_from in (("four points of a line in the plane", 2, False), ("four points of a line in the plane, seen from a fifth point", 2, True),
-                                  ("four points of a line in 3-space", 3, False), ("four lines of the plane through one point, with slopes x_i", 2, "lines")):
+                                  ("four points of a line in 3-space", 3, False), ("four lines of the plane through one point, with slopes x_i", 2, "lines"),
+                                  ("four parallel lines of the plane (a pencil with its vertex at infinity), with offsets x_i", 2, "parallel")):
         n += 1
         base = [LP.sym(f"p{i}") for i in range(dim)] + [LP.const(1)]
         direction = [LP.sym(f"q{i}") for i in range(dim)] + [LP.const(0)]
@@ -2125,13 +2218,19 @@ def rule_crossratio(run: Run, prog: Program) -> int:
                 # the line through (p0, p1) with direction (1, x): x X - Y + (p1 - x p0) = 0
                 env[params[k]] = LineObj(Table((3,), {(0,): x, (1,): LP.const(-1), (2,): base[1] - x * base[0]}))
                 continue
+            if with_from == "parallel":
+                # l0 X + l1 Y + x = 0: the cross ratio of four lines of this pencil is the cross ratio of their offsets
+                env[params[k]] = LineObj(Table((3,), {(0,): LP.sym("l0"), (1,): LP.sym("l1"), (2,): x}))
+                continue
             coords = [b_ + x * d_ for b_, d_ in zip(base, direction)]
             pt = PointSym(f"pt{k}", dim, coords=coords[:-1])
             env[params[k]] = pt
         if len(params) > 4:
             env[params[4]] = PointSym("o", 2) if with_from is True else None
+        n += _cr_repeated(run, prog, fn, label, dict(env), params)
         it = Interp(prog, None, {})
         it.ratio_mode = True
+        it.generic = True  # the configuration is in general position within its family: a coordinate is zero only when it is the zero polynomial
         it.hooks = {"matvec": lambda a_, k_: _dot(a_[0], a_[1]) if len(a_) == 2 and isinstance(a_[0], Table) and isinstance(a_[1], Table) else Opaque("matvec"),
                     "is_collinear": lambda a_, k_: True, "is_concurrent": lambda a_, k_: True,
                     "from_array": lambda a_, k_: LineObj(a_[-1]) if a_ and isinstance(a_[-1], Table) and a_[-1].shape == (3,) else Opaque("from_array")}
